@@ -112,11 +112,28 @@ func (k Keeper) ToggleClient(
 		return sdkerrors.Wrapf(types.ErrInvalidClientType, "cannot toggle client %s, client-type can't be the same", chainName)
 	}
 
+	// the new client is of another type: nothing the old client wrote (consensus states, metadata)
+	// means anything to it, and its update logic iterates over all stored consensus states
+	clientStore := k.ClientStore(ctx, chainName)
+	var staleKeys [][]byte
+	iterator := clientStore.Iterator(nil, nil)
+	for ; iterator.Valid(); iterator.Next() {
+		staleKeys = append(staleKeys, append([]byte{}, iterator.Key()...))
+	}
+	iterator.Close()
+	for _, key := range staleKeys {
+		clientStore.Delete(key)
+	}
+
 	k.SetClientState(ctx, chainName, newClientState)
-	if err := clientState.Initialize(ctx, k.cdc, k.ClientStore(ctx, chainName), newConsensusState); err != nil {
+	// initialize the client the way its new type requires
+	if err := newClientState.Initialize(ctx, k.cdc, clientStore, newConsensusState); err != nil {
 		return err
 	}
-	k.SetClientConsensusState(ctx, chainName, newClientState.GetLatestHeight(), newConsensusState)
+	// a TSS client has no consensus states (see CreateClient)
+	if newConsensusState.ClientType() != exported.TSS {
+		k.SetClientConsensusState(ctx, chainName, newClientState.GetLatestHeight(), newConsensusState)
+	}
 
 	k.Logger(ctx).Info(
 		"client state toggled",
